@@ -2,7 +2,7 @@
    Nothing but statements, `exact`, Print Assumptions (+ examples). *)
 From Coq Require Import List Bool Arith ZArith.
 From FwdLib Require Import Bytes.
-From G12 Require Import Tables Errors Exchange Conntrack Check ExchangeProofs ConntrackProofs PromProofs Lift Obligations.
+From G12 Require Import Tables Errors Exchange Conntrack Dial Check ExchangeProofs ConntrackProofs PromProofs Lift Obligations.
 Import ListNotations.
 
 (* Every request read while the proxy is not shutting down is reported complete
@@ -108,6 +108,24 @@ Print Assumptions T13_byte_counters_order_irrelevant.
 Theorem T13_byte_oracle_is_model : forall ops, byte_model ops = brun (map bop_of ops).
 Proof. exact byte_model_is_brun. Qed.
 Print Assumptions T13_byte_oracle_is_model.
+
+(* CONNECT through an upstream proxy (dialvia DialContextR, shape flag from the source of this run): wherever the
+   function fails after the connection to the upstream proxy has been dialled (building the CONNECT header, writing,
+   flushing, context end, reading the reply) the connection is closed exactly once and not handed over; on success it
+   is handed over unclosed; so with a caller that closes what it was given the dialer's active gauge is back at 0. *)
+Theorem T13_dialled_connection_owned_or_closed : forall f,
+  (dialvia dialvia_closes_before_every_error_return f = (true, 0%nat) \/
+   dialvia dialvia_closes_before_every_error_return f = (false, 1%nat)) /\
+  (fst (dialvia dialvia_closes_before_every_error_return f) = true <-> f = FNone) /\
+  dialvia_active dialvia_closes_before_every_error_return f true = 0%Z.
+Proof.
+  intro f. rewrite ob_dialvia_closes_before_every_error_return.
+  exact (conj (dialvia_owned_or_closed_once f) (conj (dialvia_handed_over_only_on_success f) (dialvia_gauge_returns_to_zero f))).
+Qed.
+Print Assumptions T13_dialled_connection_owned_or_closed.
+Theorem T13_dialled_connection_refuted_with_deferred_close : dialvia false FHeader = (false, 0%nat).
+Proof. exact dialvia_deferred_close_leaks. Qed.
+Print Assumptions T13_dialled_connection_refuted_with_deferred_close.
 
 (* Non-vacuity: a concrete exchange (CONNECT tunnel) and a concrete 3-way concurrent close. *)
 Example T13_example :
